@@ -40,8 +40,13 @@ Pool == <<
   "(trace! (let [w (concat sv [%T %T])] (list (count w) (nth w 3) w)))",
   \* ... and look at the derived value again a little later
   "(let [w (concat sv [%T]) u (conj sv %T) q `(~@sv %T)] (sleep 3) (trace! (list w u q sv)))",
-  "(let [w (concat sl [%T]) u (conj sl %T) k (assoc sm :k %T)] (sleep 3) (trace! (list w u k sl sm)))" >>
-SharedText == "(def sv [1 2 3]) (def sl '(10 20 30)) (def sm {:a 1 :b 2}) (def sr (rest [0 1 2 3 4 5]))"
+  "(let [w (concat sl [%T]) u (conj sl %T) k (assoc sm :k %T)] (sleep 3) (trace! (list w u k sl sm)))",
+  \* macro expansions that are NOT fresh lists: the macro's own rest list (it aliases the call form inside the shared
+  \* function's body) and a template held in a shared global; expanded by several evaluations at once
+  "(trace! (shf %T)) (trace! (mtmpl)) (trace! (shf (mtmpl)))" >>
+SharedText == "(def sv [1 2 3]) (def sl '(10 20 30)) (def sm {:a 1 :b 2}) (def sr (rest [0 1 2 3 4 5])) " \o
+              "(defmacro mrest (fn [& xs] xs)) (def shf (fn [a] (mrest + a (mrest + 1 0)))) " \o
+              "(def tmpl (list '+ 1 (list '+ 2 3))) (defmacro mtmpl (fn [] tmpl))"
 NP == Len(Pool)
 
 RECURSIVE SubstT(_, _, _)
